@@ -879,8 +879,10 @@ class MergeFlow(Engine):
             if used and (len(used) != 2 or len(set(used)) != 2):
                 self.find_at_merge('SWAP-EXCHANGE', f'{len(used)} item assignments through {len(set(used))} distinct positions',
                                    'a swap must assign each of the two looked-up positions exactly once (each element to the other\'s position)')
-        if kind == 'MOVE' and not s.mon.get('mutated') and (s.mon.get('movehits') or 0) >= 2:
-            self.find_at_merge('MOVE-ACTS', 'normal return without any edit although the target and at least one source were found',
+        if kind == 'MOVE' and not s.mon.get('mutated') and (s.mon.get('movehits') or 0) >= 3:
+            # (with a single source "already in place" is a legitimate no-op; with two or more resolved sources a return without
+            # any edit drops the others)
+            self.find_at_merge('MOVE-ACTS', 'normal return without any edit although the target and at least two sources were found',
                                'a move whose references all resolve must move the named elements: this path returns the running order untouched, silently')
         if kind in ('MOVE', 'SWAP'):
             for descr, ops in sorted(lst.items()):
